@@ -17,7 +17,7 @@ def dispatch (j : Json) : Json :=
   | "helpers" => runHelpersCase j
   | "simple" => runSimpleCase j
   | "post" => runPostCase j
-  | "spec" | "specmut" | "speccat" => runSpecCase j
+  | "spec" | "specmut" | "speccat" | "specfix" => runSpecCase j
   | "pathfuncs" => runPathFuncsCase j
   | "swaggerschema" => Json.mkObj []
   | "conc" | "rexp" => Json.mkObj [("model", Json.str "theorems only: outcomes are compared with solo runs / Go regexp by the harness")]
